@@ -26,18 +26,19 @@ type flowEvent struct {
 }
 
 type flowAux struct {
-	Events        []flowEvent
-	Streams       map[uint32]string // stream id -> tag (GET downloads)
-	Bodies        map[string][]byte // expected response bodies
-	Uploads       map[uint32]int    // stream id -> request body bytes sent (incl. padding)
-	UploadTags    map[uint32]string
-	ClientReset   map[uint32]bool
-	EarlyAnswer   map[string]bool // tags the back-end answers without reading the upload
-	ServerReset   []uint32        // streams the client made the server reset (zero WINDOW_UPDATE)
-	Overdeclared  int
-	ConnOverflow  bool
-	UploadOverrun uint32 // stream on which the client exceeds the server's window (0: none)
-	NStreams      int
+	Events                  []flowEvent
+	UploadBehindEarlyAnswer int
+	Streams                 map[uint32]string // stream id -> tag (GET downloads)
+	Bodies                  map[string][]byte // expected response bodies
+	Uploads                 map[uint32]int    // stream id -> request body bytes sent (incl. padding)
+	UploadTags              map[uint32]string
+	ClientReset             map[uint32]bool
+	EarlyAnswer             map[string]bool // tags the back-end answers without reading the upload
+	ServerReset             []uint32        // streams the client made the server reset (zero WINDOW_UPDATE)
+	Overdeclared            int
+	ConnOverflow            bool
+	UploadOverrun           uint32 // stream on which the client exceeds the server's window (0: none)
+	NStreams                int
 }
 
 func bodyBytes(tag string, n int) []byte {
@@ -97,9 +98,15 @@ func drawFlow(t *rapid.T, check string) *Case {
 	// focus (4% of C12 runs): the back-end answers early without reading an upload while the
 	// client's stream window is shut, so the stream stays open with its request body closed
 	// by the proxy's own transport, and a storm of padded DATA keeps arriving on it
-	earlyFocus := check == "C12" && drawBool(t, "earlyfocus", 4)
+	earlyFocus := check == "C12" && (drawBool(t, "earlyfocus", 4) || osGetenv("VERIF_C12_EARLY") != "")
 	if earlyFocus {
 		iws = 0
+	}
+	// 2% (C12): eight uploads in a row that the back-end answers early and then hangs up on -
+	// see below; what each of them leaks, if anything, adds up on the connection
+	earlyClose := check == "C12" && !earlyFocus && (drawBool(t, "earlyclose", 2) || osGetenv("VERIF_C12_EARLYCLOSE") != "")
+	if earlyClose {
+		iws = 1 << 20 // each answer has to get through before the next upload starts
 	}
 	mfs := int64(16384)
 	set := []Setting{{4, uint32(iws)}}
@@ -110,6 +117,11 @@ func drawFlow(t *rapid.T, check string) *Case {
 	steps = append(steps, Step{Kind: "write", Pieces: [][]byte{append([]byte(ClientPreface), FramesBytes(SettingsFrame(set...))...)}})
 	aux.Events = append(aux.Events, flowEvent{Kind: "settings", IWS: iws, MFS: mfs, Write: nwrite})
 	nwrite++
+	if earlyClose {
+		steps = append(steps, Step{Kind: "write", Pieces: [][]byte{FramesBytes(WindowUpdateFrame(0, 1<<24))}})
+		aux.Events = append(aux.Events, flowEvent{Kind: "wu", Stream: 0, Inc: 1 << 24, Write: nwrite})
+		nwrite++
+	}
 
 	if check == "C12" && drawBool(t, "overrun", 3) {
 		// the peer exceeds the window the server advertised: the handler is parked before
@@ -174,6 +186,9 @@ func drawFlow(t *rapid.T, check string) *Case {
 	if drawBool(t, "many", 5) {
 		n = rapid.IntRange(20, 120).Draw(t, "manystreams")
 	}
+	if earlyClose {
+		n = 8
+	}
 	aux.NStreams = n
 	next := uint32(1)
 	var all []uint32
@@ -184,6 +199,45 @@ func drawFlow(t *rapid.T, check string) *Case {
 		next += 2
 		tag := fmt.Sprintf("c0-f%d", i)
 		all = append(all, id)
+		if earlyClose {
+			// an upload the back-end answers at once, with a large response, and whose body is
+			// too long for the back-end to drain after its handler has returned (net/http gives
+			// up after 256 KiB and closes): the reverse proxy's transport then closes the request
+			// body while the response is still streaming to the client - the stream is open,
+			// its handler has abandoned the body - and the rest of the upload, small maximally
+			// padded DATA frames sent once the response has begun to arrive, is discarded there
+			body := bodyBytes(tag, 300000+6400)
+			fields := [][2]string{{":method", "POST"}, {":scheme", "https"}, {":authority", "fc.verif.test"}, {":path", "/" + tag}, {"x-tag", tag}}
+			fs0 := HeadersFrames(id, enc.Block(fields), false, nil, -1, nil)
+			sent := 0
+			for off := 0; off < 300000; off += 16384 {
+				f := DataFrame(id, body[off:min(off+16384, 300000)], false, -1)
+				sent += len(f.Payload)
+				fs0 = append(fs0, f)
+			}
+			var fs1 []Frame
+			for off := 300000; off < len(body); off += 64 {
+				f := DataFrame(id, body[off:off+64], off+64 == len(body), 255)
+				sent += len(f.Payload)
+				fs1 = append(fs1, f)
+			}
+			early := bodyBytes("early-"+tag, []int{20000, 150000}[rapid.IntRange(0, 1).Draw(t, "earlyclosesz")])
+			// (the client's stream window must let the answer through, or the next upload never starts)
+			totalDown += len(early)
+			p.Backend.Resp[tag] = &RespPlan{Status: 200, Body: early, NoRead: true}
+			aux.Bodies[tag] = early
+			aux.EarlyAnswer[tag] = true
+			aux.Streams[id] = tag
+			aux.Uploads[id] = sent
+			aux.UploadTags[id] = tag
+			aux.UploadBehindEarlyAnswer++
+			write(fs0...)
+			steps = append(steps, Step{Kind: "h2headers", Streams: []uint32{id}})
+			write(fs1...)
+			// one after the other (the raw client does not pace itself by the server's windows)
+			steps = append(steps, Step{Kind: "h2await", Streams: []uint32{id}})
+			continue
+		}
 		if (earlyFocus && i == 0) || drawBool(t, "upload", 35) {
 			// POST with a body: exercises the server's receive windows / credit return
 			sz := []int{0, 1, 100, 5000, 40000, 120000}[rapid.IntRange(0, 5).Draw(t, "upsz")]
@@ -265,13 +319,32 @@ func drawFlow(t *rapid.T, check string) *Case {
 			aux.UploadTags[id] = tag
 			if (earlyFocus && i == 0) || drawBool(t, "noread", 20) {
 				// the back-end answers without reading the body: the proxy has to discard it
-				p.Backend.Resp[tag] = &RespPlan{Status: 200, Body: []byte("early:" + tag), NoRead: true}
-				aux.Bodies[tag] = []byte("early:" + tag)
+				early := []byte("early:" + tag)
+				if drawBool(t, "earlybig", 50) {
+					// a large early answer: under the client's windows it keeps the stream open for
+					// a long while after the handler has closed the request body, and the rest of
+					// the upload (padding included) arrives in that state and is discarded
+					early = bodyBytes("early-"+tag, []int{20000, 70000, 150000}[rapid.IntRange(0, 2).Draw(t, "earlybigsz")])
+					totalDown += len(early)
+				}
+				p.Backend.Resp[tag] = &RespPlan{Status: 200, Body: early, NoRead: true}
+				aux.Bodies[tag] = early
 				aux.EarlyAnswer[tag] = true
 			} else {
 				aux.Bodies[tag] = []byte("ok:" + tag)
 			}
 			aux.Streams[id] = tag
+			if aux.EarlyAnswer[tag] && len(aux.Bodies[tag]) > 1000 && len(fs) > 3 {
+				// the client goes on uploading after the early answer has begun to arrive: the
+				// rest of the body meets a stream that is open while its handler has closed
+				// the request body
+				cut := rapid.IntRange(2, min(len(fs)-1, 12)).Draw(t, "earlycut")
+				write(fs[:cut]...)
+				steps = append(steps, Step{Kind: "h2headers", Streams: []uint32{id}})
+				write(fs[cut:]...)
+				aux.UploadBehindEarlyAnswer++
+				continue
+			}
 			// send in 1-3 writes
 			cut := rapid.IntRange(1, len(fs)).Draw(t, "upcut")
 			write(fs[:cut]...)
@@ -315,6 +388,15 @@ func drawFlow(t *rapid.T, check string) *Case {
 	}
 
 	// window play
+	if check == "C20" && len(all) > 20 && drawBool(t, "deepchain", 60) {
+		// a dependency chain over all the streams (each depends on the one before), then the
+		// stream at its head is made dependent on the one at its far end: RFC 7540 5.3.3 moves
+		// the far end up first; whatever the depth, the structure stays a tree rooted at 0
+		for i := 1; i < len(all); i++ {
+			write(PriorityFrame(all[i], PrioParam{Dep: all[i-1], Weight: uint8(rapid.IntRange(0, 255).Draw(t, "chainw"))}))
+		}
+		write(PriorityFrame(all[0], PrioParam{Dep: all[len(all)-1], Exclusive: drawBool(t, "chainex", 40), Weight: 7}))
+	}
 	m := rapid.IntRange(0, 10).Draw(t, "nplay")
 	connGranted := int64(65535)
 	strGranted := map[uint32]int64{}
@@ -735,5 +817,5 @@ func init() {
 	},
 		Rule: "a raw-frame client opens 1-8 (5%: 20-120) streams: downloads of 0..300000 bytes (boundary sizes 16384/16385/65535/65536, streamed by the back-end in chunks; 20% without Content-Length and with the end of the response held back until the controller releases it, so that END_STREAM travels in an empty DATA frame queued after further window events) and uploads of 0..120000 bytes in DATA frames of seeded sizes with padding (20% answered by the back-end without reading the body; 15% longer than their declared content-length, so that the server resets the stream and has to discard what follows), with SETTINGS_INITIAL_WINDOW_SIZE in {0,1,100,16384,65535,2^20} and MAX_FRAME_SIZE variants; then 0-10 window events: connection / stream WINDOW_UPDATEs of 1..2^20, further small downloads opened in between, INITIAL_WINDOW_SIZE changes up and down (driving open windows negative), MAX_FRAME_SIZE changes, client RST_STREAM mid-body; final grants that suffice for everything; 5%: a connection WINDOW_UPDATE overflowing 2^31-1. All three write schedulers, fences (incl. the write fence that keeps a frame write in flight, 30% of runs), response segmentation by draw. Oracle refwin: every DATA frame within the connection window, the stream window (largest INITIAL_WINDOW_SIZE among the last acknowledged and all later written SETTINGS, plus every WINDOW_UPDATE written before the frame was received) and the maximum frame size; all bodies complete and byte-identical after the final grants; overflow rejected with FLOW_CONTROL_ERROR; connection-level credit not returned after all uploads are consumed or discarded <= 16 KiB and never negative. Non-trivial: the server sent DATA. Distinct: distinct controller action-label sequences."})
 	register(&CheckDef{ID: "C20", Level: "exploration", Engine: "A", Draw: func(t *rapid.T) *Case { return drawFlow(t, "C20") },
-		Rule: "in-situ monitor: the C12 workload (bodies under client-controlled windows, RST_STREAM mid-body, INITIAL_WINDOW_SIZE and MAX_FRAME_SIZE changes) plus PRIORITY frames with arbitrary, circular and exclusive dependencies on open, idle and closed streams, against round-robin / priority (seeded MaxClosedNodesInTree, MaxIdleNodesInTree, ThrottleOutOfOrderWrites) / random schedulers installed through http2.Server.NewWriteScheduler behind a monitor that checks every OpenStream / CloseStream / AdjustStream / Push / Pop against a list-based model: each pushed frame popped exactly once unless its stream was closed first, per-stream order, control before stream data, popped DATA pieces <= stream window, connection window and peer's maximum frame size (read before the pop through an injected accessor) and concatenating to the original, Pop()==false only when nothing is sendable, priority tree rooted at 0 / acyclic / links consistent after every operation. Operation sequences are those the serve loop produces under simulated schedules, not arbitrary interface-level sequences. Non-trivial: the server sent DATA. Distinct: distinct controller action-label sequences."})
+		Rule: "in-situ monitor: the C12 workload (bodies under client-controlled windows, RST_STREAM mid-body, INITIAL_WINDOW_SIZE and MAX_FRAME_SIZE changes) plus PRIORITY frames with arbitrary, circular and exclusive dependencies on open, idle and closed streams (and, with 20-120 streams, a dependency chain over all of them whose head is then made dependent on its far end), against round-robin / priority (seeded MaxClosedNodesInTree, MaxIdleNodesInTree, ThrottleOutOfOrderWrites) / random schedulers installed through http2.Server.NewWriteScheduler behind a monitor that checks every OpenStream / CloseStream / AdjustStream / Push / Pop against a list-based model: each pushed frame popped exactly once unless its stream was closed first, per-stream order, control before stream data, popped DATA pieces <= stream window, connection window and peer's maximum frame size (read before the pop through an injected accessor) and concatenating to the original, Pop()==false only when nothing is sendable, priority tree rooted at 0 / acyclic / links consistent after every operation. Operation sequences are those the serve loop produces under simulated schedules, not arbitrary interface-level sequences. Non-trivial: the server sent DATA. Distinct: distinct controller action-label sequences."})
 }
